@@ -10,8 +10,8 @@ for d in sorted(glob.glob(os.path.join(HERE, "seeded", "*"))):
     m = json.load(open(mp))
     first = (m.get("check_lines") or [""])[0]
     rows.append("| %s | %s | %s | demo clean=%s patched=%s | %s | `%s` | %s |" % (
-        os.path.basename(d), m.get("property"), "yes" if m.get("detected") else "NO", m.get("demo_on_clean_tree_exit"), m.get("demo_with_patch_exit"),
-        m.get("check_cmd", ""), first[:110], (m.get("strengthening") or "")))
+        os.path.basename(d), m.get("property"), ("superseded" if m.get("superseded") else ("yes" if m.get("detected") else "NO")), m.get("demo_on_clean_tree_exit"), m.get("demo_with_patch_exit"),
+        m.get("check_cmd", ""), first[:110], ((m.get("strengthening") or "") + (" SUPERSEDED: " + m["superseded"] if m.get("superseded") else ""))))
 open(os.path.join(HERE, "seeded", "README.md"), "w").write(
     "# Seeded changes\n\nEach directory: patch.diff (git apply on /repo), demo.py (passes clean, fails patched), notes.md (what it needs to manifest), "
     "meta.json (what was run: `tools/seedtest.py`).\n\n| seed | property | detected | demo | check run | first line reported | strengthening needed |\n|---|---|---|---|---|---|---|\n"
